@@ -108,7 +108,12 @@ func (clnt *Clnt) Rpcnb(r *Req) error {
 	clnt.reqlast = r
 	clnt.Unlock()
 
-	clnt.reqout <- r
+	// If the connection fails now, the send goroutine is gone; recv
+	// still completes r with the connection error.
+	select {
+	case clnt.reqout <- r:
+	case <-clnt.done:
+	}
 	return nil
 }
 
@@ -233,7 +238,7 @@ func (clnt *Clnt) recv() {
 	}
 
 closed:
-	clnt.done <- true
+	close(clnt.done)
 
 	/* send error to all pending requests */
 	clnt.Lock()
@@ -244,11 +249,14 @@ closed:
 		err = clnt.err
 	}
 	clnt.Unlock()
-	for ; r != nil; r = r.next {
+	for r != nil {
+		// the caller may recycle r as soon as it is completed
+		next := r.next
 		r.Err = err
 		if r.Done != nil {
 			r.Done <- r
 		}
+		r = next
 	}
 
 	clnts.Lock()
